@@ -287,3 +287,31 @@ func VerifHarness_C08_peer_state_messages() {
 	vC08Deliver(h, conR, peer, ch, bz)
 	vAssert(vSnap(h.cs) == before, "peer-state-message-leaves-consensus-state-untouched")
 }
+
+// One peer cannot make the node allocate vote sets without bound: K votes from the same peer, each
+// naming another untracked round of the current height (valid or not: bad signature, validator
+// index out of range), open at most two catch-up rounds — and the node still advances afterwards.
+func VerifHarness_C08_catchup_round_quota() {
+	n := vParam("N", 3)
+	h := vNewCS(n, 5, -1)
+	cs := h.cs
+	cs.Step = RoundStepPrevote
+	cs.Votes.SetRound(1)
+	conR := vC08Reactor(cs)
+	peer, _ := vC08Peer()
+	base := len(cs.Votes.roundVoteSets)
+	k := vParam("K", 4)
+	for i := 0; i < k; i++ {
+		round := int64(3 + i)
+		idx := 0
+		if vNondetBool("index-out-of-range") {
+			idx = n
+		}
+		vote := vVote(idx, cs.Height, round, types.VoteTypePrevote, types.BlockID{}, vNondetBool("validsig"), byte(40+i))
+		vC08Deliver(h, conR, peer, VoteChannel, vC08Wire(&VoteMessage{vote}, msgTypeVote))
+	}
+	vReach("votes-delivered")
+	vAssert(len(cs.Votes.roundVoteSets) <= base+2, "one-peer-opens-at-most-two-catch-up-rounds")
+	vAssert(len(cs.Votes.peerCatchupRounds[peer.Key]) <= 2, "catch-up-quota-recorded-per-peer")
+	vC08MoveOn(h)
+}
